@@ -206,6 +206,16 @@ pub fn run(ctx: &Ctx) -> i32 {
             check_case(ctx, st, &det[i % det.len()], Settings::new(fl[i / det.len()]));
         });
     }
+    // prefixes followed by different sets of repeat counts (all pairs of subsets of {1..5})
+    {
+        let cs = gen::count_set_cases();
+        let step = if ctx.thorough { 1 } else { 2 };
+        par_for(&ctx.run, cs.len() / step, |k, st| {
+            let i = k * step + (seed as usize % step);
+            st.count("count_set_cases");
+            check_case(ctx, st, &cs[i], Settings::new(REP));
+        });
+    }
     let n = if ctx.thorough { 200_000 } else { 8_000 };
     let alphabets: Vec<(String, Vec<String>)> = gen::ALPHABETS.iter().map(|a| (a.to_string(), gen::alphabet(a))).collect();
     par_for(&ctx.run, n, |i, st| {
